@@ -406,7 +406,27 @@ TransformTop(CT, o, kwf) ==
 \* ------------------------------------------------------------------ the step function
 Frozen(CT, o) == CT[o.c].frozen
 IsInplaceForm(act) == act.op \in {"setattr", "delattr"} \/ ("inplace" \in DOMAIN act /\ act.inplace)
-Step(CT, o, act) ==
+Apply(CT, o, act) ==
+  LET noop == [val |-> o, res |-> {"ok"}, same |-> TRUE]
+      out(r, inplace) == [val |-> r.val, res |-> r.res, same |-> inplace]
+      inpl == IsInplaceForm(act)
+  IN CASE act.op = "with"      -> IF act.v = Unchanged THEN noop ELSE out(With(CT, o, act.attr, act.v, act.kw), inpl)
+         [] act.op = "update"    -> IF act.v = Unchanged THEN noop ELSE out(UpdateA(CT, o, act.attr, act.v, act.kw), inpl)
+         [] act.op = "transform" -> out(TransformA(CT, o, act.attr, act.f, act.kwf), inpl)
+         [] act.op = "reset"     -> out(ResetA(CT, o, act.attr), inpl)
+         [] act.op = "setattr"   -> out(With(CT, o, act.attr, act.v, <<>>), TRUE)
+         [] act.op = "delattr"   -> out(ResetA(CT, o, act.attr), TRUE)
+         [] act.op \in {"with_item", "update_item", "transform_item", "without_item"} -> out(ElemHelper(CT, o, act), inpl)
+         [] act.op = "update_top" -> IF act.kw = <<>> THEN noop
+                                     ELSE out(UpdateTop(CT, o, act.kw), inpl)
+         [] act.op = "transform_top" -> IF act.kwf = <<>> THEN noop
+                                           ELSE out(TransformTop(CT, o, act.kwf), inpl)
+         [] act.op = "reset_top" -> out(Ok(ResetAll(CT, o, 1)), inpl)
+
+
+IsNoopForm(act) == \/ (act.op = "update_top" /\ act.kw = <<>>) \/ (act.op = "transform_top" /\ act.kwf = <<>>)
+                   \/ (act.op \in {"with", "update"} /\ act.v = Unchanged)
+StepF(CT, o, act) ==
   LET noop == [val |-> o, res |-> {"ok"}, same |-> TRUE]
       out(r, inplace) == [val |-> r.val, res |-> r.res, same |-> inplace]
       inpl == IsInplaceForm(act)
@@ -415,19 +435,11 @@ Step(CT, o, act) ==
   IF act.op = "update_top" /\ ~(KwNames(act.kw) \subseteq AttrSet(CT, o.c)) THEN [val |-> o, res |-> {"TypeError"}, same |-> TRUE]
   ELSE IF act.op = "transform_top" /\ ~(KwNames(act.kwf) \subseteq AttrSet(CT, o.c)) THEN [val |-> o, res |-> {"TypeError"}, same |-> TRUE]
   ELSE IF "iff" \in DOMAIN act /\ ~act.iff THEN noop
-  ELSE IF inpl /\ Frozen(CT, o) /\ act.op \notin {"update_top", "transform_top"} THEN [val |-> o, res |-> {"FrozenInstanceError"}, same |-> TRUE]
-  ELSE CASE act.op = "with"      -> IF act.v = Unchanged THEN noop ELSE out(With(CT, o, act.attr, act.v, act.kw), inpl)
-         [] act.op = "update"    -> IF act.v = Unchanged THEN noop ELSE out(UpdateA(CT, o, act.attr, act.v, act.kw), inpl)
-         [] act.op = "transform" -> out(TransformA(CT, o, act.attr, act.f, act.kwf), inpl)
-         [] act.op = "reset"     -> out(ResetA(CT, o, act.attr), inpl)
-         [] act.op = "setattr"   -> out(With(CT, o, act.attr, act.v, <<>>), TRUE)
-         [] act.op = "delattr"   -> out(ResetA(CT, o, act.attr), TRUE)
-         [] act.op \in {"with_item", "update_item", "transform_item", "without_item"} -> out(ElemHelper(CT, o, act), inpl)
-         [] act.op = "update_top" -> IF act.kw = <<>> THEN noop
-                                     ELSE IF inpl /\ Frozen(CT, o) THEN [val |-> o, res |-> {"FrozenInstanceError"}, same |-> TRUE]
-                                     ELSE out(UpdateTop(CT, o, act.kw), inpl)
-         [] act.op = "transform_top" -> IF act.kwf = <<>> THEN noop
-                                        ELSE IF inpl /\ Frozen(CT, o) THEN [val |-> o, res |-> {"FrozenInstanceError"}, same |-> TRUE]
-                                        ELSE out(TransformTop(CT, o, act.kwf), inpl)
-         [] act.op = "reset_top" -> out(Ok(ResetAll(CT, o, 1)), inpl)
+  ELSE IF inpl /\ Frozen(CT, o) /\ ~IsNoopForm(act) THEN
+       \* rejected; when the call would fail anyway for another reason that report is acceptable too
+       [val |-> o, res |-> IF "unspecified" \in Apply(CT, o, act).res THEN {"unspecified"}
+                           ELSE {"FrozenInstanceError"} \cup (Apply(CT, o, act).res \ {"ok"}), same |-> TRUE]
+  ELSE Apply(CT, o, act)
+
+Step(CT, o, act) == StepF(CT, o, act)
 =============================================================================
